@@ -318,12 +318,25 @@ class Decompiler(object):
                 for jump_start_pos in decompiler.jump_map[pos]:
                     if jump_start_pos > pos:
                         continue
+                    if decompiler.is_value_jump(jump_start_pos):
+                        continue
                     for or_jump_start_pos in decompiler.or_jumps:
                         if pos > or_jump_start_pos > jump_start_pos:
                             break  # And jump
                     else:
                         decompiler.or_jumps.add(jump_start_pos)
             i -= 1
+    def is_value_jump(decompiler, pos):
+        # `x and y` / `x or y` whose value is used (not a branch condition):
+        # JUMP_IF_x_OR_POP before 3.12, COPY 1; POP_JUMP_IF_x; POP_TOP since 3.12
+        i = decompiler.instructions_map.get(pos)
+        if i is None:
+            return False
+        instructions = decompiler.instructions
+        if instructions[i][2].endswith('_OR_POP'):
+            return True
+        return (0 < i < len(instructions) - 1 and instructions[i-1][2] == 'COPY'
+                and instructions[i-1][3] == [1] and instructions[i+1][2] == 'POP_TOP')
     def decompile(decompiler):
         for pos, next_pos, opname, arg in decompiler.instructions:
             if pos in decompiler.targets:
@@ -715,7 +728,7 @@ class Decompiler(object):
 
     def conditional_jump_new(decompiler, endpos, if_true):
         expr = decompiler.stack.pop()
-        if decompiler.pos >= decompiler.conditions_end:
+        if decompiler.pos >= decompiler.conditions_end or decompiler.is_value_jump(decompiler.pos):
             clausetype = ast.Or if if_true else ast.And
         elif decompiler.pos in decompiler.or_jumps:
             clausetype = ast.Or
